@@ -37,6 +37,12 @@ func (obr *observerRunner) UpdateTableState(tableInfo *pokertable.Table) error {
 		case pokertable.TableStateStatus_TableGameSettled:
 			tableInfo.State.GameState.AsObserver()
 		}
+
+		// The first state of a hand can be published before the table status has moved to
+		// playing: whatever the status says, a hand state must never reach an observer unfiltered.
+		if tableInfo.State.GameState != nil {
+			tableInfo.State.GameState.AsObserver()
+		}
 	}
 
 	// Emit event
